@@ -7,6 +7,7 @@ import (
 	"go/types"
 	"net"
 	"os"
+	"regexp"
 	"strconv"
 	"strings"
 
@@ -38,6 +39,7 @@ func registerModels(e *Engine) {
 	registerSymStringModels(e)
 	registerRestfulModels(e)
 	registerFSModels(e)
+	registerRegexpModels(e)
 }
 
 // ---------------------------------------------------------------- harness primitives
@@ -285,6 +287,7 @@ func registerStdModels(e *Engine) {
 	symStr2("strings.HasSuffix", strings.HasSuffix, smt.OStrSuffixOf, true)
 	symStr2("strings.Contains", strings.Contains, smt.OStrContains, false)
 
+	e.native("regexp.MatchString", regexp.MatchString)
 	e.native("strconv.Itoa", strconv.Itoa)
 	e.native("strconv.Atoi", strconv.Atoi)
 	e.native("strconv.ParseInt", strconv.ParseInt)
